@@ -159,6 +159,11 @@ func (r *replayer) errCase(c ErrCase) {
 		for _, t := range texts {
 			text := nonASCII(t.Text)
 			for _, m := range r.modes {
+				if m.Env == "none" && c.Fault != "name missing at run time" {
+					// compiled without an environment type the literals of call arguments are not retyped, so another
+					// operation of the tree may fail first: that mode serves the one fault that needs it
+					continue
+				}
 				prog, cg := CompileMode(text, m)
 				if cg != nil {
 					if cg.Panic != "" || cg.Hang {
